@@ -11,6 +11,14 @@ macro("last_seeds", ["t"], 'field(t, "$last_seeds", "dict[ref:AbstractDeme,ref:D
 macro("Done", ["rev", "n", "j", "q"], "ite(rev, n - j <= q and q < n, 0 <= q and q < j)")
 macro("Todo", ["rev", "n", "j", "q"], "ite(rev, 0 <= q and q < n - j, j <= q and q < n)")
 macro("hibernation_on", ["t"], "'hibernation' in t.config.options and t.config.options['hibernation']")
+# a well-formed sprouting mechanism: a generator, two chains of filters, two bookkeeping lists (ghost kind 7)
+macro("MechOk", ["m"], """
+    m != None and m.candidates_generator != None and m.deme_filter_chain != None and m.tree_filter_chain != None
+    and forall(lambda f: imp(0 <= f < len(m.deme_filter_chain), m.deme_filter_chain[f] != None))
+    and forall(lambda f: imp(0 <= f < len(m.tree_filter_chain), m.tree_filter_chain[f] != None))
+    and m._generated_deme_ids_to_candidates_history != None and kind(m._generated_deme_ids_to_candidates_history) == 7
+    and m._used_deme_ids_to_candidates_history != None and kind(m._used_deme_ids_to_candidates_history) == 7
+""")
 macro("ActiveNonLeaf", ["t", "d"], "InTree(t, d) and d._active and d._level < len(t._levels) - 1")
 
 # ---- the seeds a sprouting round uses (interface between the sprout mechanism and the tree) --------------------
@@ -21,8 +29,9 @@ SEEDS_POST = [
        "pat=result.keys()[k])", tags="C18"),
 ]
 fn(SM + "get_seeds", params={"tree": "ref:DemeTree"}, returns="dict[ref:AbstractDeme,ref:DemeCandidates]",
-   requires=[cl("s_" + c.label, c.text.replace("self", "tree")) for c in struct("self")] + [cl("problems", "LevelProblemsWf(tree)")],
-   modifies=[("_centroid", "True"), ("$list<dict[str,ref:DemeCandidates]>", "kind(o) == 7")],
+   requires=[cl("tree", "tree != None")] + [cl("s_" + c.label, c.text.replace("self", "tree")) for c in struct("self")]
+            + [cl("problems", "LevelProblemsWf(tree)")],
+   modifies=[("_centroid", "True"), ("$list<ref:$Opaque>", "kind(o) == 7"), ("_threshold", "True")],
    ensures=SEEDS_POST + [cl("t_" + c.label, c.text.replace("self", "tree")) for c in struct("self")],
    trusted=True, note="interface contract of the sprouting mechanism towards the tree; get_seeds itself is verified in e-files")
 
@@ -31,8 +40,8 @@ HIB_FRAME = [("_hibernating", "InTree(self, cast(o, 'ref:AbstractDeme'))")]
 fn(T + "run_sprout",
    ghost_after={"get_seeds@0": ["setg(self, '$last_seeds', _call_result)"]},
    requires=struct("self") + [cl("problems", "LevelProblemsWf(self)"),
-                              cl("mechanism", "self._sprout_mechanism != None")],
-   modifies=TREE_LISTS + USER_PROBLEM_FRAME + HIB_FRAME + [("_centroid", "True"), ("$list<dict[str,ref:DemeCandidates]>", "kind(o) == 7")],
+                              cl("mechanism", "MechOk(self._sprout_mechanism)")],
+   modifies=TREE_LISTS + USER_PROBLEM_FRAME + HIB_FRAME + [("_centroid", "True"), ("$list<ref:$Opaque>", "kind(o) == 7"), ("_threshold", "True")],
    loops={0: dict(index="j", seq_base="anl", modifies=HIB_FRAME, invariant=[
        cl("inv_processed", "forall(lambda q: imp(Done(iter_reversed, len(anl), j, q), "
           "anl[q][1]._hibernating == (not (anl[q][1] in deme_seeds))))"),
@@ -151,15 +160,15 @@ fn(T + "run_metaepoch",
 
 # ---- run_step / run ----------------------------------------------------------------------------------------------------
 STEP_FRAME = RUNME_FRAME + TREE_LISTS + HIB_FRAME + [("metaepoch_count", "o == self"), ("_logger", "o == self"), ("$steps", "o == self"),
-                                                     ("$list<dict[str,ref:DemeCandidates]>", "kind(o) == 7"), ("$last_seeds", "o == self")]
+                                                     ("$list<ref:$Opaque>", "kind(o) == 7"), ("_threshold", "True"), ("$last_seeds", "o == self")]
 RUN_PRE = struct("self") + [cl("problems", "LevelProblemsWf(self)"), cl("runnable", "AllRunnable(self)"),
-                            cl("mechanism", "self._sprout_mechanism != None")]
+                            cl("mechanism", "MechOk(self._sprout_mechanism)")]
 fn(T + "run_step",
    ghost_after={"assign:metaepoch_count@0": ["setg(self, '$steps', steps(self) + 1)"]},
    requires=RUN_PRE,
    modifies=STEP_FRAME,
    ensures=struct("self") + PREFIX + [
-       cl("runnable", "AllRunnable(self) and LevelProblemsWf(self) and self._sprout_mechanism != None"),
+       cl("runnable", "AllRunnable(self) and LevelProblemsWf(self) and MechOk(self._sprout_mechanism)"),
        cl("counts_one_metaepoch", "self.metaepoch_count == old(self.metaepoch_count) + 1 and steps(self) == old(steps(self)) + 1", tags="C05"),
        cl("no_sprout_once_the_stop_condition_holds", "imp(gsc_last(self), forall(lambda l: imp(0 <= l < len(self._levels), "
           "len(self._levels[l]) == old(len(self._levels[l]))), pat=self._levels[l]))", tags="C05"),
@@ -176,7 +185,7 @@ fn(T + "run",
    requires=RUN_PRE + [cl("gsc", "self._gsc != None")],
    modifies=STEP_FRAME,
    loops={0: dict(invariant=struct("self", prefix="inv_") + [
-       cl("inv_runnable", "AllRunnable(self) and LevelProblemsWf(self) and self._sprout_mechanism != None and self._gsc != None"),
+       cl("inv_runnable", "AllRunnable(self) and LevelProblemsWf(self) and MechOk(self._sprout_mechanism) and self._gsc != None"),
        cl("inv_counter_counts_steps", "self.metaepoch_count - old(self.metaepoch_count) == steps(self) - old(steps(self)) "
           "and steps(self) >= old(steps(self))", tags="C05"),
        cl("inv_below_limit", "imp(exact_type(self._gsc, 'MetaepochLimit') and "
